@@ -64,6 +64,10 @@ FOCUS_R6 = {
     "C20": "stream objects: lha_input_stream_from on a missing or unreadable file, lha_input_stream_from_FILE, callback tables with NULL skip or NULL close, freeing a stream whose lead-in buffer still holds bytes, lha_reader_new after a failed stream; decoders whose init fails; header reference counting when one header sits in two lists",
 }
 
+# round 7: free choice - whatever the earlier rounds have not touched
+FREE = "anything you like, as long as it is NOT one of the ideas listed above or a close variant: read the anchored files again with fresh eyes, look for the clause of the property nobody has attacked yet, for code paths that run only for unusual header levels, OS types, methods, option letters or input sizes, and for assumptions that two distant pieces of code share silently"
+FOCUS_R7 = {k: FREE for k in ("C06", "C07", "C08", "C09", "C10", "C11", "C12", "C13", "C14", "C15", "C16", "C18", "C19", "C20")}
+
 
 def prop_text(d):
     return "Property %s: %s\n\nStatement: %s\n\nQuantifier: %s\n\nWhy the existing tests cannot settle it: %s\n\nWhere it lives in the code (anchors): files %s\nMechanisms:\n%s\n" % (
@@ -73,7 +77,7 @@ def prop_text(d):
 
 def main():
     rdir, rname = sys.argv[1], sys.argv[2]
-    focus_table = {"fourth": FOCUS_R4, "fifth": FOCUS_R5, "sixth": FOCUS_R6}.get(rname, FOCUS_R6)
+    focus_table = {"fourth": FOCUS_R4, "fifth": FOCUS_R5, "sixth": FOCUS_R6, "seventh": FOCUS_R7}.get(rname, FOCUS_R7)
     os.makedirs(rdir, exist_ok=True)
     props = {}
     for l in open(os.path.join(VERIF, "properties.jsonl")):
